@@ -19,13 +19,15 @@ def simpson_nodes(n=40001):
     return u, w * (1.0 / (n - 1)) / 3.0
 
 
-FAMILIES = ["gauss", "wall", "bimodal", "periodic", "reflective", "exp-prior", "zero-region", "narrow"]
+FAMILIES = ["gauss", "wall", "bimodal", "periodic", "reflective", "exp-prior", "zero-region", "narrow", "mixed"]
 
 
 def make_cell(seed, family=None, kernel=None, clustering=None, resample=None, d=None, N=64, vv=None):
     rng = np.random.default_rng(seed)
     fam = family or FAMILIES[int(rng.integers(0, len(FAMILIES)))]
     d = d or int(rng.integers(1, 3))
+    if fam == "mixed":
+        d = 2  # a periodic coordinate next to a coordinate whose posterior abuts a hard wall
     kernel = kernel or ["tpcn", "rwm"][int(rng.integers(0, 2))]
     clustering = bool(rng.integers(0, 2)) if clustering is None else clustering
     resample = resample or ["mult", "syst"][int(rng.integers(0, 2))]
@@ -64,6 +66,13 @@ def make_cell(seed, family=None, kernel=None, clustering=None, resample=None, d=
         centre[0] = float(rng.choice([0.0, 0.02, 0.5, 0.98]))
         width[0] = float(rng.uniform(5, 30))  # kappa
         periodic = [0]
+    elif fam == "mixed":
+        lkind[0] = "vm"
+        centre[0] = float(rng.choice([0.0, 0.5, 0.98]))
+        width[0] = float(rng.uniform(5, 30))
+        periodic = [0]
+        centre[1] = float(rng.choice([-0.03, 0.0, 0.04, 1.0]))
+        width[1] = float(10 ** rng.uniform(-1.3, -0.8))
     elif fam == "reflective":
         centre[0] = float(rng.choice([-0.02, 0.0, 0.05, 1.0]))
         width[0] = float(10 ** rng.uniform(-1.3, -0.8))
